@@ -417,8 +417,12 @@ static inline uint8_t *exact_copy(const void *src, size_t n) {
 }
 
 /* -------------------------------------------------------- crash handling */
+static volatile int g_in_child = 0; /* forked fault-injection children report through their exit status */
 static void crash_line(const char *kind) {
     char buf[640];
+    if (g_in_child) {
+        return;
+    }
     int n = snprintf(buf, sizeof buf,
                      "\nCRASH case=%" PRIu64 " kind=%s ctx=%s sub=%s\n",
                      (uint64_t)g_case, kind, g_ctx ? g_ctx : "?", g_sub);
